@@ -459,7 +459,8 @@ let op_realm opidx impl toks =
        | _ -> ());
       pr "obs %d realm%s\n" opidx (String.concat "" (List.map (fun b -> if b then " 1" else " 0") res));
       flush_misses opidx;
-      (match impl with
+      ignore impl;
+      (match List.find_opt (function "realm" :: _ -> true | _ -> false) !impl_all_lines with   (* (the first line of the operation is realmrx) *)
        | Some ("realm" :: ians) when name_ok nm && List.length ians = List.length users ->
            List.iter2 (fun u a ->
                let id = cstr_ml (bytes_of_hex u) in
